@@ -8,6 +8,7 @@ import (
 
 	"github.com/bobertlo/gmars"
 
+	"verif/gen"
 	"verif/hx"
 	"verif/ref"
 )
@@ -316,5 +317,102 @@ func TestC15(t *testing.T) {
 	hx.Run(t, hx.Prop[battleCase]{
 		ID: "C15", Sub: "reports", Rule: c15Rule, Checks: hx.Scale(30000, 12000000),
 		Gen: genReportBattle, Judge: judgeReports,
+	})
+}
+
+// ---- many rounds on one simulator with one recorder
+
+type roundsCase struct {
+	Cfg    simCfg
+	Ws     []ref.Warrior
+	Rounds int
+	Offs   []int // offsets used in round r: Offs[(r+i) % len]
+	Run    int   // cycles per round
+}
+
+func genRoundsCase(t *rapid.T) roundsCase {
+	var c roundsCase
+	m := rapid.IntRange(8, 40).Draw(t, "M")
+	c.Cfg = simCfg{M: m, R: m, W: m, P: rapid.SampledFrom([]int{1, 2, 4}).Draw(t, "P"), Cycles: 50}
+	n := rapid.IntRange(1, 3).Draw(t, "nw")
+	for i := 0; i < n; i++ {
+		c.Ws = append(c.Ws, gen.Warrior(m, 4).Draw(t, "w"))
+	}
+	for i := 0; i < n+3; i++ {
+		c.Offs = append(c.Offs, rapid.IntRange(0, 3*m).Draw(t, "off"))
+	}
+	c.Rounds = rapid.IntRange(1, 12).Draw(t, "rounds")
+	if gen.Rare(t, "manyrounds", 3) {
+		c.Rounds = rapid.SampledFrom([]int{255, 256, 257, 300, 513, 600, 1030}).Draw(t, "roundsmany")
+	}
+	c.Run = rapid.IntRange(0, 6).Draw(t, "run")
+	return c
+}
+
+func judgeRoundsCase(c roundsCase, rec *hx.Rec) string {
+	m := c.Cfg.M
+	if m < 3 || len(c.Ws) == 0 || len(c.Offs) == 0 {
+		return "malformed case"
+	}
+	for _, w := range c.Ws {
+		if w.Start < 0 || w.Start >= len(w.Code) {
+			return "malformed case"
+		}
+	}
+	sim, err := gmars.NewReportingSimulator(c.Cfg.G())
+	if err != nil {
+		return err.Error()
+	}
+	sr := gmars.NewStateRecorder(sim)
+	sim.AddReporter(sr)
+	for _, w := range c.Ws {
+		sim.AddWarrior(hx.WarriorToG(w))
+	}
+	for r := 0; r < c.Rounds; r++ {
+		if r > 0 {
+			sim.Reset()
+			for a := 0; a < m; a++ {
+				if st, ow := sr.GetMemState(gmars.Address(a)); st != gmars.CoreEmpty || ow != -1 {
+					return fmt.Sprintf("after reset #%d: StateRecorder.GetMemState(%d) = (state %d, warrior %d), want (CoreEmpty, -1)", r, a, st, ow)
+				}
+			}
+		}
+		want := make([]cellState, m)
+		for a := range want {
+			want[a] = cellState{gmars.CoreEmpty, -1}
+		}
+		for i, w := range c.Ws {
+			off := c.Offs[(r+i)%len(c.Offs)]
+			if err := sim.SpawnWarrior(i, gmars.Address(off)); err != nil {
+				return fmt.Sprintf("round %d: SpawnWarrior(%d,%d): %v", r, i, off, err)
+			}
+			for k := range w.Code {
+				want[(offMod(off, m)+k)%m] = cellState{gmars.CoreWritten, i}
+			}
+		}
+		for a := 0; a < m; a++ {
+			if st, ow := sr.GetMemState(gmars.Address(a)); (cellState{st, ow}) != want[a] {
+				return fmt.Sprintf("round %d after spawning: StateRecorder.GetMemState(%d) = (state %d, warrior %d), want %v", r, a, st, ow, want[a])
+			}
+		}
+		for k := 0; k < c.Run; k++ {
+			sim.RunCycle()
+		}
+	}
+	if rec != nil {
+		var cl []string
+		if c.Rounds >= 255 {
+			cl = append(cl, "rounds_ge_255")
+		}
+		rec.Case(c.Rounds >= 2 && c.Run > 0, hx.HashJSON(c), func() any { return map[string]any{"cfg": c.Cfg, "rounds": c.Rounds, "run": c.Run, "warriors": len(c.Ws)} }, cl...)
+	}
+	return ""
+}
+
+func TestC15_Rounds(t *testing.T) {
+	hx.Run(t, hx.Prop[roundsCase]{
+		ID: "C15", Sub: "rounds", Checks: hx.Scale(2000, 300000),
+		Rule: "one reporting simulator with one StateRecorder is used for 1..12 (one in eight: 255..1030) rounds: reset, spawn 1..3 warriors at rotating offsets, run 0..6 cycles; after every reset every address must read (CoreEmpty,-1) and after every spawn exactly the loaded cells read (CoreWritten, warrior). Non-trivial: at least two rounds with cycles in between; distinct by case hash.",
+		Gen: genRoundsCase, Judge: judgeRoundsCase,
 	})
 }
